@@ -63,6 +63,19 @@ if not getattr(engine.Engine, "_c04_nan", False):
                 rid = next(self.ids)
                 st.heap[rid] = out
                 return Ref(rid)
+        if (isinstance(op, ast.Pow) and self.c.key in NAN_DIV and not self.spec_mode and isinstance(a, (Ref, Arr))
+                and not isinstance(b, (Ref, Arr)) and not engine.is_z3(b) and b == 2):
+            # a ** 2.0 element-wise: same fact as the base engine (out[idx] == a[idx] * a[idx]) but triggered on out[idx] only,
+            # so that reads of `a` elsewhere do not keep producing non-linear products
+            A = self.deref(a, st)
+            if A.elem == "real":
+                idx = [self.fresh("i", I) for _ in A.shape]
+                out = Arr(self.fresh("sq", arr_sort("real", A.rank)), A.shape, "real")
+                ea = self.select(A, idx)
+                st.pc.append(z3.ForAll(idx, self.select(out, idx) == ea * ea, patterns=[self.select(out, idx)]))
+                rid = next(self.ids)
+                st.heap[rid] = out
+                return Ref(rid)
         return _orig_arr_binop(self, op, a, b, st)
 
     def _isnan(E, node, st):
@@ -81,3 +94,22 @@ if not getattr(engine.Engine, "_c04_nan", False):
     engine.Engine.arr_binop = _arr_binop
     engine.Engine._c04_nan = True
     calls.NP_EXT["np.isnan"] = _isnan
+
+
+# 3. np.sum of a 1-D real array as the spec function c04_psum (opt-in per contract key through PSUM).
+#    The base engine defines np.sum(a) by a private partial-sum function (S(0) = 0, S(k+1) = S(k) + a[k]) to which no
+#    lemma can be attached.  For the listed contracts the same sum is read as c04_psum(a, len(a)) -- a spec function of
+#    contracts/c04_normal_equations.py with exactly that recurrence as axioms -- so that its proven lemmas
+#    (monotone / integer-valued for non-negative integer-valued entries) are available.
+PSUM = set()
+
+
+def _np_sum(E, node, st):
+    v = E.ev(node.args[0], st)
+    arr = E.deref(v, st)
+    if E.c.key in PSUM and arr.rank == 1 and arr.elem == "real" and len(node.args) == 1 and not node.keywords:
+        return E.spec_apply("c04_psum", [v, arr.shape[0]], st)
+    return calls.np_sum(E, arr, st)
+
+
+calls.NP_EXT["np.sum"] = _np_sum
